@@ -39,6 +39,8 @@ def run(ctx):
         ctx.guard(consumers.accept_sets, ctx, cfg, fs, 'M.matcher')
         ctx.guard(c07.ledger_only, ctx, cfg, fs, 'I.index-opaque')
         ctx.guard(consumers.ledger_callers, ctx, cfg, fs, 'O.own-items')
+        import c05
+        ctx.guard(c05.tokenizer_context_free, ctx, cfg, fs, 'T.separator')
         import c06
         ctx.guard(c06.loop_conditions, ctx, cfg, fs, 'L.repetition')
         ctx.guard(c08.keep_only, ctx, lambda: c09.tokenizer(ctx, cfg, fs), lambda o: 'marker-' in o.key, 'T.separator')
